@@ -31,9 +31,9 @@ SeqsUpTo(n) == IF n = 0 THEN {<<>>}
 ArgLists == {s \in SeqsUpTo(MaxArg) : \A i, j \in 1..Len(s) : i # j => s[i] # s[j]}
 
 Ops ==
-       [op : {"construct", "construct_fd"}, ks : ArgLists, v : Vals]
+       [op : {"construct", "construct_fd", "construct_mixed"}, ks : ArgLists, v : Vals]
   \cup [op : {"setitem", "setdefault"}, k : AllKeys, v : Vals]
-  \cup [op : {"update_dict", "update_pairs", "update_kwargs", "ior", "update_fd", "ior_fd"}, ks : ArgLists, v : Vals]
+  \cup [op : {"update_dict", "update_pairs", "update_kwargs", "ior", "update_fd", "ior_fd", "update_mixed"}, ks : ArgLists, v : Vals]
   \cup [op : {"copy", "pickle"}]
 
 Post(o) == PostP(d, Declared, o)
